@@ -882,7 +882,11 @@ class Region:
         self._noread = set()    # id(node) of lvalues that are stored to / address-taken, not loaded
         self.barrier_deps = []  # (description) dependences between differently partitioned accesses, ordered
         self.barrier_conflicts = []  # (kind, w item-like, r, description)
-        self.block_clips = []   # (ok, description, node)
+        self.block_clips = []   # (ok, description, node, text)
+        self.block_covers = []  # (ok, description, node, text)
+        self.team_splits = []   # (ok, description, node, text)
+        self.nt_src = {}        # var id -> {"num", "max"}: derived from omp_get_num_threads()/max_threads()
+                                # anywhere in the function (also before the region)
         self.region_privs = self._clause_vars(node, self.pragma, ("private", "firstprivate", "lastprivate",
                                                                   "reduction"))
         self.reduction_ids = self._clause_vars(node, self.pragma, ("reduction",))
@@ -961,6 +965,7 @@ class Region:
             self._visit_sections(self.body, ctx)
         else:
             self._visit(self.body, ctx)
+        self._thread_count_vars()
         self._propagate()
         self._classify()
         self._uniformity()
@@ -970,6 +975,44 @@ class Region:
     def _barrier(self):
         self.phase = self.nphase
         self.nphase += 1
+
+    def _nt_kinds(self, e):
+        out = set()
+        for x in pwalk(e):
+            if x.get("kind") == "DeclRefExpr":
+                rd = x["referencedDecl"]
+                if rd.get("kind") == "FunctionDecl":
+                    if rd.get("name") == "omp_get_num_threads":
+                        out.add("num")
+                    elif rd.get("name") == "omp_get_max_threads":
+                        out.add("max")
+                else:
+                    out |= self.nt_src.get(rd["id"], set())
+        return out
+
+    def _thread_count_vars(self):
+        """function-wide: a thread count taken before the region (omp_get_max_threads()) is as good a
+        size for a per-thread table as one taken inside"""
+        f = self.func
+        for _ in range(20):
+            ch = False
+            for lhs, rhs in f.assigns:
+                if lhs.get("kind") == "VarDecl":
+                    vid = lhs["id"]
+                else:
+                    l = strip(lhs)
+                    if l.get("kind") != "DeclRefExpr":
+                        continue
+                    vid = l["referencedDecl"]["id"]
+                if not is_arith(qt(f.vars.get(vid, {}))) and vid in f.vars:
+                    continue
+                k = self._nt_kinds(rhs)
+                if k and not k <= self.nt_src.get(vid, set()):
+                    self.nt_src.setdefault(vid, set()).update(k)
+                    ch = True
+            if not ch:
+                break
+        self.nt_vars |= set(self.nt_src)
 
     def _visit_sections(self, body, ctx):
         """the structured block of a sections construct: each `section` (the first one may be implicit) is
@@ -1839,12 +1882,58 @@ class Region:
             return out
         return [(self._lin(e), guards)]
 
+    def _split_kind(self, e):
+        """B = <e>: ("ceil"|"floor", N id, T id) for the block-size idioms over a thread count T, else None.
+        ceil:  (N + T - 1) / T.   floor-derived (equal to the floor quotient for some N, T):  N / T,
+        (N / T + c) & mask,  ((N / T + c) / k) * k."""
+        e = strip(e)
+        if e.get("kind") != "BinaryOperator":
+            return None
+        op = e.get("opcode")
+        if op == "/":
+            num, den = self._lin(kids(e)[0]), self._lin(kids(e)[1])
+            if len(den) != 1 or None in den:
+                return None
+            t = list(den)[0]
+            if t not in self.nt_src or den[t] != 1:
+                return None
+            rest = {s_: c for s_, c in num.items() if s_ not in (t, None)}
+            if len(rest) != 1 or list(rest.values())[0] != 1 or not isinstance(list(rest)[0], str):
+                return None
+            n = list(rest)[0]
+            if num.get(t) == 1 and num.get(None) == -1:
+                return ("ceil", n, t)
+            if t not in num and None not in num:
+                return ("floor", n, t)
+            return None
+        inner = None
+        if op == "&":
+            inner = strip(kids(e)[0])
+        elif op == "*":
+            x = strip(kids(e)[0])
+            if x.get("kind") == "BinaryOperator" and x.get("opcode") == "/" \
+                    and strip(kids(x)[1]).get("kind") == "IntegerLiteral" \
+                    and strip(kids(e)[1]).get("kind") == "IntegerLiteral":
+                inner = strip(kids(x)[0])
+        if inner is not None and inner.get("kind") == "BinaryOperator" and inner.get("opcode") == "+" \
+                and strip(kids(inner)[1]).get("kind") == "IntegerLiteral":
+            r = self._split_kind(kids(inner)[0])
+            if r is not None and r[0] == "floor":
+                return r
+        return None
+
     def _block_clip(self):
-        """Idiom `B = (N + T - 1) / T` (T = thread count), `ip = B * t`: the block [ip, ip + B) of thread t
-        can stick out past N (whenever (T-1)*ceil(N/T) > N), so a length `B` / end `ip + B` must be clipped
-        against N on every value path (MIN(ip + B, N) - ip, MIN(B, N - ip), or an `if` that compares with N)."""
-        if not self.nt_vars:
+        """Manual block partitions by a thread count T.
+        block-clip:  B = (N + T - 1) / T, ip = B * t: the block [ip, ip + B) of thread t can stick out past N
+                     (whenever (T-1)*ceil(N/T) > N), so a length `B` / end `ip + B` must be clipped against N on
+                     every value path.
+        block-cover: T blocks of size B must cover N: true for the ceil idiom; a floor-derived B leaves
+                     N - T*floor(N/T) points out unless one block takes the remainder (`t == T-1 ? N - ip : B`).
+        team-split:  if the block index t is the thread id, T must not be omp_get_max_threads(): the team may
+                     be smaller and the blocks of the missing threads are never processed."""
+        if not self.nt_src:
             return
+        f = self.func
         assigns = [(vid, rhs, ctx) for vid, rhs, ctx in self.assign_ev]
         for node, lhs, rhs, ctx in self.store_ev:
             l = strip(lhs)
@@ -1853,29 +1942,74 @@ class Region:
         by_var = {}
         for vid, rhs, ctx in assigns:
             by_var.setdefault(vid, []).append((rhs, ctx))
-        # ceil splits by the thread count
-        splits = {}   # B id -> (N id, T id)
-        for vid, lst in by_var.items():
+        fw = {}   # function-wide assignments (block sizes may be computed before the region)
+        for lhs, rhs in f.assigns:
+            if lhs.get("kind") == "VarDecl":
+                fw.setdefault(lhs["id"], []).append(rhs)
+            else:
+                l = strip(lhs)
+                if l.get("kind") == "DeclRefExpr":
+                    fw.setdefault(l["referencedDecl"]["id"], []).append(rhs)
+        all_splits = {}   # B id -> (kind, N id, T id, defining expression)
+        for vid, lst in fw.items():
             if len(lst) != 1:
                 continue
-            e = strip(lst[0][0])
-            if e.get("kind") != "BinaryOperator" or e.get("opcode") != "/":
-                continue
-            num, den = self._lin(kids(e)[0]), self._lin(kids(e)[1])
-            if len(den) != 1 or None in den:
-                continue
-            t = list(den)[0]
-            if t not in self.nt_vars or den[t] != 1:
-                continue
-            rest = {s_: c for s_, c in num.items() if s_ not in (t, None)}
-            if num.get(t) == 1 and num.get(None) == -1 and len(rest) == 1 and list(rest.values())[0] == 1 \
-                    and isinstance(list(rest)[0], str):
-                splits[vid] = (list(rest)[0], t)
+            r = self._split_kind(lst[0])
+            if r is not None:
+                all_splits[vid] = r + (lst[0],)
+        used = set()
+        for n in pwalk(self.body):
+            if n.get("kind") == "DeclRefExpr":
+                used.add(n["referencedDecl"]["id"])
+        all_splits = {b: v for b, v in all_splits.items() if b in used}
+        splits = {b: (v[1], v[2]) for b, v in all_splits.items() if v[0] == "ceil"}
+        name = {i: d.get("name", "?") for i, d in f.vars.items()}
+        # block start variables ip = B * t, with their block index t
+        ipvars = {}   # B id -> {ip id: t id}
+        for b in all_splits:
+            for vid, lst in by_var.items():
+                for rhs, ctx in lst:
+                    fl = self._lin(rhs)
+                    if len(fl) == 1 and list(fl.values())[0] == 1 and isinstance(list(fl)[0], tuple) \
+                            and list(fl)[0][0] == "mul" and str(b) in list(fl)[0][1:]:
+                        other = [x for x in list(fl)[0][1:] if x != str(b)]
+                        ipvars.setdefault(b, {})[vid] = other[0] if other else None
+        for b, (kind, nvar, t, bexpr) in sorted(all_splits.items()):
+            bdesc = "%s: blocks of size %s = %s over %s" % (
+                f.name, name.get(b, "?"), re.sub(r"\s+", " ", self.tu.text_of(bexpr)), name.get(nvar, "?"))
+            # team-split
+            for ip, tv in sorted(ipvars.get(b, {}).items()):
+                if tv is not None and TID in self.labels.get(tv, ()):
+                    if "max" in self.nt_src.get(t, ()):
+                        self.team_splits.append((False, bdesc, bexpr, name.get(t, "?")))
+                    else:
+                        self.team_splits.append((True, bdesc, bexpr, ""))
+            # block-cover
+            if kind == "ceil":
+                self.block_covers.append((True, bdesc, bexpr, "ceil idiom: T*B >= N"))
+            else:
+                covered = False
+                for vid, lst in by_var.items():
+                    for rhs, ctx in lst:
+                        for fl, guards in self._leaves(rhs):
+                            is_rem = any(fl == {nvar: 1, ip: -1} for ip in ipvars.get(b, {})) or (
+                                len(fl) == 2 and fl.get(nvar) == 1 and any(
+                                    isinstance(s_, tuple) and s_[0] == "mul" and str(b) in s_[1:] and c == -1
+                                    for s_, c in fl.items()))
+                            if not is_rem:
+                                continue
+                            for g in guards:
+                                for x in pwalk(g):
+                                    if x.get("kind") == "BinaryOperator" and x.get("opcode") in ("==", "!="):
+                                        ids = set(self._refs(x)[0])
+                                        if ids & set(v for v in ipvars.get(b, {}).values() if v) or t in ids:
+                                            covered = True
+                if covered:
+                    self.block_covers.append((True, bdesc, bexpr, "one block takes the remainder N - ip"))
+                elif ipvars.get(b):
+                    self.block_covers.append((False, bdesc, bexpr, ""))
         if not splits:
             return
-        name = {}
-        for i, d in self.func.vars.items():
-            name[i] = d.get("name", "?")
         loop_bound_vars = set()
         for n in pwalk(self.body):
             if n.get("kind") == "ForStmt":
